@@ -342,7 +342,195 @@ def cases(tier, seed):
                 a = _mk("dt", fa[:3], fa[3:], ta)
                 b = _mk("dt", fb[:3], fb[3:], ["pzone", z, 1, off])
                 out.append({"stream": "interval-second-occurrence", "fn": "iv", "args": [a, b]})
+    history_cases(random.Random(seed * 7919 + 66006), 1 if quick else 10, out)
     return out
+
+
+# ----------------------------------------------------------------------------- histories
+# A history is ONE case: args = [[kind, a, b], ...], kind "iv" (a pendulum Interval is built from the two operands and observed exactly as
+# in an "iv" case) or "pd" (the helper pendulum.helpers.precise_diff — the one Interval uses — is called on the native operands, as in a "pd" case).
+# impl_run performs the steps in order in one process; every step is judged by the oracle on its OWN operands and the whole history is run in
+# the Gallina model (Model/PdHistory.run_history).  The histories are made of TWINS: operands that some plausible key would not tell apart
+# although the decomposition differs (equal instants in another zone; equal wall fields with another fold / tz / kind; equal elapsed time;
+# a shared endpoint), in seeded order, with the first step repeated at the end.
+H_NAMED = ["Asia/Kolkata", "Asia/Tokyo", "America/Phoenix", "Asia/Kathmandu", "Europe/Paris", "America/Toronto", "America/St_Johns",
+           "Australia/Lord_Howe", "Pacific/Chatham", "Africa/Nairobi", "America/Sao_Paulo", "Etc/GMT-1"]
+H_OFFS = [18000, -12600, 32400, -28800, 19800, -10800, 20700, 3600, -3600, 43200, -39600, 50400, 1800, -1800]
+_DAY = 86400 * 10**6
+
+
+def _zi(name):
+    import zoneinfo
+    return zoneinfo.ZoneInfo(name)
+
+
+def _write(u, spec):
+    """the UTC instant u (wall microseconds of its UTC fields) as an operand in the zone `spec`; None if it cannot be written unambiguously"""
+    if spec[0] == "putc":
+        f = fields_of(u)
+        return None if f is None else _mk("dt", f[:3], f[3:], ["putc"])
+    if spec[0] == "pfixed":
+        f = fields_of(u + spec[1] * 10**6)
+        return None if f is None else _mk("dt", f[:3], f[3:], ["pfixed", spec[1]])
+    f = fields_of(u)
+    if f is None or not (1972 <= f[0] <= 2036):
+        return None
+    try:
+        z = _zi(spec[1])
+        loc = _dt.datetime(*f, tzinfo=_dt.timezone.utc).astimezone(z)
+        o0 = loc.replace(fold=0).utcoffset()
+        o1 = loc.replace(fold=1).utcoffset()
+    except Exception:  # noqa
+        return None
+    if o0 != o1 or o0.microseconds:      # a repeated wall time: not generated here (history-fold-twins does that on purpose)
+        return None
+    return _mk("dt", [loc.year, loc.month, loc.day], [loc.hour, loc.minute, loc.second, loc.microsecond],
+               ["pzone", spec[1], 0, o0.days * 86400 + o0.seconds])
+
+
+def _h_spec(rnd):
+    r = rnd.random()
+    if r < 0.2:
+        return ["putc"]
+    if r < 0.65:
+        return ["pfixed", rnd.choice(H_OFFS)]
+    return ["pzone", rnd.choice(H_NAMED)]
+
+
+def _month_edge_instant(rnd, lo=1975, hi=2034):
+    """a UTC instant within a few hours of a month boundary (so that an offset moves it into the other month), or anywhere"""
+    y, m = rnd.randrange(lo, hi + 1), rnd.randrange(1, 13)
+    dim = calendar.monthrange(y, m)[1]
+    r = rnd.random()
+    if r < 0.45:
+        d, hh = dim, rnd.randrange(12, 24)
+    elif r < 0.8:
+        d, hh = 1, rnd.randrange(0, 12)
+    else:
+        d, hh = rnd.randrange(1, dim + 1), rnd.randrange(24)
+    t = [hh] + rnd.choice([[0, 0, 0], [30, 0, 0], [59, 59, 999999], [rnd.randrange(60), rnd.randrange(60), rnd.randrange(10**6)]])
+    return wall_us(_mk("dt", [y, m, d], t, None))
+
+
+def _later_instant(rnd, u):
+    """an instant after u: whole months later at a month edge, the same time of day or one that borrows"""
+    f = fields_of(u)
+    k = rnd.choice([1, 1, 1, 2, 3, 6, 11, 12, 13, 24, 0])
+    mm = f[1] - 1 + k
+    y, m = f[0] + mm // 12, mm % 12 + 1
+    dim = calendar.monthrange(y, m)[1]
+    d = rnd.choice([min(f[2], dim), dim, 1, min(f[2], dim), rnd.randrange(1, dim + 1)])
+    t = rnd.choice([f[3:], f[3:], _rand_time(rnd), [f[3], 0, 0, 0]])
+    v = wall_us(_mk("dt", [y, m, d], list(t), None))
+    if v <= u:
+        v = u + rnd.choice([1, 3600 * 10**6, _DAY, 28 * _DAY, 31 * _DAY + 1])
+    return v
+
+
+def history_cases(rnd, scale, out):
+    def emit(stream, steps, repeat=True):
+        steps = [s for s in steps if s is not None and s[1] is not None and s[2] is not None]
+        if len(steps) < 2:
+            return
+        if repeat:
+            steps = steps + [list(steps[0])]
+        out.append({"stream": stream, "fn": "hist", "args": steps})
+
+    def step(kind, a, b):
+        if a is None or b is None:
+            return None
+        a, b = _order(a, b)
+        return [kind, a, b]
+
+    # ---- the same two instants written in several zones (the witness of DESIGN §13 first: UTC, then +05:00 / -03:30 / named zones)
+    ua = wall_us(_mk("dt", [2021, 2, 28], [22, 0, 0, 0], None))
+    ub = wall_us(_mk("dt", [2021, 3, 31], [22, 0, 0, 0], None))
+    for order in ([["putc"], ["pfixed", 18000], ["pfixed", -12600], ["pzone", "Asia/Tokyo"]],
+                  [["pzone", "Asia/Kolkata"], ["putc"], ["pfixed", -28800]], [["pfixed", 18000], ["putc"]]):
+        emit("history-zone-twins", [step("iv", _write(ua, z), _write(ub, z)) for z in order])
+    for i in range(500 * scale):
+        u = _month_edge_instant(rnd)
+        v = _later_instant(rnd, u)
+        specs = [["putc"]] if rnd.random() < 0.7 else []
+        while len(specs) < rnd.choice([2, 3, 3, 4, 5]):
+            z = _h_spec(rnd)
+            if z not in specs:
+                specs.append(z)
+        rnd.shuffle(specs)
+        steps = []
+        for z in specs:
+            a, b = _write(u, z), _write(v, z)
+            if a is None or b is None or tz_offset(a[8]) != tz_offset(b[8]):
+                continue        # named zone: not writable, or the pair straddles an offset change (outside the statement)
+            kind = "pd" if rnd.random() < 0.15 else "iv"
+            steps.append(step(kind, a, b))
+            if kind == "pd" and rnd.random() < 0.5:
+                steps.append(step("iv", a, b))
+        if rnd.random() < 0.2 and steps:      # a pair in differently named zones between the twins (decomposed in UTC)
+            z1, z2 = rnd.choice(specs), rnd.choice(specs)
+            steps.insert(rnd.randrange(len(steps) + 1), step("iv", _write(u, z1), _write(v, z2)))
+        emit("history-zone-twins", steps)
+    # ---- the two occurrences of a repeated wall time as END of an Interval that starts in UTC / a fixed offset (differently named zones:
+    #      the statement applies, UTC frame): same start, ends that carry the same tzinfo object and the same wall fields, fold 0 / 1
+    for z, f, off in SECOND_OCCURRENCES:
+        try:
+            loc = _dt.datetime(*f, tzinfo=_dt.timezone.utc).astimezone(_zi(z))
+            o0 = loc.replace(fold=0).utcoffset()
+            if loc.fold != 1 or loc.utcoffset() != _dt.timedelta(seconds=off) or o0 == loc.utcoffset():
+                continue
+            off0 = o0.days * 86400 + o0.seconds
+        except Exception:  # noqa
+            continue
+        tu = wall_us(["dt"] + f + [0, None])
+        for span in [1, 1800, 3600, 4200, 86400, 31 * 86400, 3 * 86400 + 5] + [rnd.randrange(1, 40 * 86400) for _ in range(3 * scale)]:
+            for ta in (["putc"], ["pfixed", rnd.choice(H_OFFS)]):
+                fw = fields_of(tu + off * 10**6)
+                e1 = _mk("dt", fw[:3], fw[3:], ["pzone", z, 1, off])        # second occurrence: instant tu
+                e0 = _mk("dt", fw[:3], fw[3:], ["pzone", z, 0, off0])       # first occurrence: instant tu + off - off0
+                start = _write(tu - span * 10**6 - (off0 - off) * 10**6, ta)
+                pair = [step("iv", start, e0), step("iv", start, e1)]
+                if rnd.random() < 0.5:
+                    pair.reverse()
+                if rnd.random() < 0.3:
+                    pair.insert(1, ["pd", start, e0])
+                emit("history-fold-twins", pair)
+    # ---- equal wall fields under different readings: naive / UTC / a fixed offset / a named zone / Date (midnight) / mixed zones
+    for i in range(250 * scale):
+        midnight = rnd.random() < 0.4
+        u = _month_edge_instant(rnd)
+        v = _later_instant(rnd, u)
+        if midnight:
+            u, v = u // _DAY * _DAY, v // _DAY * _DAY + (_DAY if v // _DAY == u // _DAY else 0)
+        fa, fb = fields_of(u), fields_of(v)
+        readings = [[None, None], [["putc"], ["putc"]], [["pfixed", 18000], ["pfixed", 18000]], [["pfixed", -12600], ["pfixed", -12600]],
+                    [["pfixed", 3600], ["putc"]], [["putc"], ["pfixed", -28800]], [["pzone", "Asia/Tokyo", 0, 32400], ["pzone", "Asia/Tokyo", 0, 32400]]]
+        rnd.shuffle(readings)
+        steps = []
+        for ta, tb in readings[:rnd.choice([3, 4, 5])]:
+            if ta is not None and ta[0] == "pzone" and not (1972 <= fa[0] and fb[0] <= 2036):
+                continue
+            steps.append(step("iv", _mk("dt", fa[:3], fa[3:], ta), _mk("dt", fb[:3], fb[3:], tb)))
+        if midnight:
+            steps.insert(rnd.randrange(len(steps) + 1), step("iv", _mk("date", fa[:3], [0, 0, 0, 0], None), _mk("date", fb[:3], [0, 0, 0, 0], None)))
+        emit("history-wall-twins", steps)
+    # ---- equal elapsed time from different starts / a shared start or end (a key made of the length, or of one endpoint only)
+    for i in range(250 * scale):
+        tz = rnd.choice([None, ["putc"], ["pfixed", rnd.choice(H_OFFS)]])
+        kind = "date" if rnd.random() < 0.15 else "dt"
+        u = _month_edge_instant(rnd, 1900, 2100)
+        E = rnd.choice([28, 29, 30, 31, 59, 365, 366, rnd.randrange(1, 800)]) * _DAY + (0 if kind == "date" else rnd.choice([0, 0, 1, 3600 * 10**6, rnd.randrange(_DAY)]))
+        steps = []
+        mode = rnd.choice(["elapsed", "elapsed", "start", "end"])
+        for sh in [0] + rnd.sample([1, 2, 3, 27, 28, 29, 30, 31, 59, 60, 365, 366, 730], rnd.choice([2, 3, 4])):
+            if mode == "elapsed":
+                x, y = u + sh * _DAY, u + sh * _DAY + E
+            elif mode == "start":
+                x, y = u, u + E + sh * _DAY
+            else:
+                x, y = u - sh * _DAY, u + E
+            fx, fy = fields_of(x), fields_of(y)
+            steps.append(step("iv" if rnd.random() < 0.85 else "pd", _mk(kind, fx[:3], fx[3:], tz), _mk(kind, fy[:3], fy[3:], tz)))
+        emit("history-same-elapsed" if mode == "elapsed" else "history-shared-endpoint", steps)
 
 
 # UTC instants (zone, UTC fields, offset in force) inside the SECOND occurrence of a repeated wall time; pendulum.datetime(..., tz=zone) builds the
@@ -353,10 +541,13 @@ SECOND_OCCURRENCES = [("Europe/Paris", [2012, 10, 28, 1, 20, 0], 3600), ("Europe
 
 
 def search_cases(seed):
-    return [c for c in cases("thorough", seed) if c["fn"] in ("pd", "iv")][:400000]
+    cs = cases("thorough", seed)
+    return [c for c in cs if c["fn"] == "hist"] + [c for c in cs if c["fn"] in ("pd", "iv")][:400000]
 
 
 def nontrivial(c):
+    if c["fn"] == "hist":
+        return len(c["args"]) >= 2 and any(s[1] != s[2] for s in c["args"])
     return c["fn"] == "add" or c["args"][0] != c["args"][1]
 
 
@@ -402,6 +593,8 @@ def impl_run(cases):
             return pendulum.Date(y, m, d)
         if tz is None:
             return pendulum.naive(y, m, d, hh_, mm, ss, us)
+        if tz[0] == "pzone":
+            return pendulum.datetime(y, m, d, hh_, mm, ss, us, tz=tzobj(tz), fold=tz[2])
         return pendulum.datetime(y, m, d, hh_, mm, ss, us, tz=tzobj(tz))
 
     def flds(x):
@@ -422,37 +615,54 @@ def impl_run(cases):
         except Exception as e:  # noqa
             return [1, type(e).__name__] + [0] * 6
 
+    def run_pd(a, sub, helper):
+        x = (pend if sub in (1, 3) else native)(a[0])
+        y = (pend if sub in (1, 2) else native)(a[1])
+        r1 = tup(helper(x, y))
+        r2 = tup(helper(y, x))
+        try:
+            r3 = tup(H.precise_diff(x, y))
+        except Exception:  # noqa
+            r3 = [0] * 8
+        return [0] + [int(v) for v in r1 + r2 + r3]
+
+    def run_iv(a):
+        x, y = pend(a[0]), pend(a[1])
+        iv = y - x
+        iv2 = pendulum.interval(x, y)
+        cc = comps(iv)
+        if comps(iv2) != cc:
+            return [1, "IntervalCtorDiffers"]
+        reb = guarded(lambda: flds(x + iv))
+        if x.__class__ is pendulum.Date:
+            add = guarded(lambda: flds(x.add(years=cc[0], months=cc[1], weeks=cc[2], days=cc[3])))
+        else:
+            add = guarded(lambda: flds(x.add(years=cc[0], months=cc[1], weeks=cc[2], days=cc[3], hours=cc[4], minutes=cc[5],
+                                             seconds=cc[6], microseconds=cc[7])))
+        rev = comps(x - y)
+        return [0] + cc + reb + add + rev
+
+    def run_hist(steps):
+        """the steps of one history, in order, in this process; the canonical result of every step"""
+        import pendulum.helpers as hh_
+        res = []
+        for kind, a, b in steps:
+            try:
+                res.append(run_iv([a, b]) if kind == "iv" else run_pd([a, b], 0, hh_.precise_diff))
+            except Exception as e:  # noqa
+                res.append([1, type(e).__name__])
+        return [0] + res
+
     out = []
     for c in cases:
         fn, a = c["fn"], c["args"]
         try:
             if fn == "pd":
-                sub = c.get("sub", 0)
-                x = (pend if sub in (1, 3) else native)(a[0])
-                y = (pend if sub in (1, 2) else native)(a[1])
-                r1 = tup(backend.precise_diff(x, y))
-                r2 = tup(backend.precise_diff(y, x))
-                try:
-                    r3 = tup(H.precise_diff(x, y))
-                except Exception:  # noqa
-                    r3 = [0] * 8
-                out.append([0] + [int(v) for v in r1 + r2 + r3])
+                out.append(run_pd(a, c.get("sub", 0), backend.precise_diff))
             elif fn == "iv":
-                x, y = pend(a[0]), pend(a[1])
-                iv = y - x
-                iv2 = pendulum.interval(x, y)
-                cc = comps(iv)
-                if comps(iv2) != cc:
-                    out.append([1, "IntervalCtorDiffers"])
-                    continue
-                reb = guarded(lambda: flds(x + iv))
-                if x.__class__ is pendulum.Date:
-                    add = guarded(lambda: flds(x.add(years=cc[0], months=cc[1], weeks=cc[2], days=cc[3])))
-                else:
-                    add = guarded(lambda: flds(x.add(years=cc[0], months=cc[1], weeks=cc[2], days=cc[3], hours=cc[4], minutes=cc[5],
-                                                     seconds=cc[6], microseconds=cc[7])))
-                rev = comps(x - y)
-                out.append([0] + cc + reb + add + rev)
+                out.append(run_iv(a))
+            elif fn == "hist":
+                out.append(run_hist(a))
             elif fn == "add":
                 from pendulum.helpers import add_duration
                 x = pend(a[0])
@@ -473,8 +683,19 @@ def impl_run(cases):
 
 
 # ----------------------------------------------------------------------------- model side
+def _sub(c, i):
+    """step i of a history as a single case"""
+    kind, a, b = c["args"][i]
+    return {"stream": c["stream"], "fn": kind, "args": [a, b]}
+
+
 def model_calls(c, backend):
     fn, a = c["fn"], c["args"]
+    if fn == "hist":
+        flat = []
+        for kind, x, y in a:
+            flat += [1 if kind == "iv" else 2] + enc(x) + enc(y)
+        return [(f"{backend}_history", flat)]
     if fn == "pd":
         A, B = enc(a[0]), enc(a[1])
         if backend == "py":
@@ -497,6 +718,21 @@ def _exn(o):
 
 def model_result(c, backend, outs):
     fn = c["fn"]
+    if fn == "hist":
+        o = outs[0]
+        if not o or o[0] != 0:
+            return ["bad-call"] + o
+        lists, i = [], 1
+        while i < len(o):
+            lists.append(o[i + 1:i + 1 + o[i]])
+            i += 1 + o[i]
+        res, j = [0], 0
+        for k in range(len(c["args"])):
+            sub = _sub(c, k)
+            n = 3 if sub["fn"] == "iv" else 2
+            res.append(model_result(sub, backend, lists[j:j + n]))
+            j += n
+        return res
     if any(o == [3] for o in outs):
         return ["outside-model"]
     if fn == "pd":
@@ -528,6 +764,9 @@ def same(c, m, r):
     if m == ["outside-model"]:
         return True
     fn = c["fn"]
+    if fn == "hist":
+        return (bool(r) and r[0] == 0 and m[0] == 0 and len(r) == len(m) == len(c["args"]) + 1
+                and all(same(_sub(c, k), m[k + 1], r[k + 1]) for k in range(len(c["args"]))))
     if fn == "pd":
         if r and r[0] == 0 and m[0] == 0:
             return r[:17] == m
@@ -659,7 +898,35 @@ def b_fields(op):
     return op[1:8] if op[0] == "dt" else op[1:4] + [0, 0, 0, 0]
 
 
+def _hist_failures(c, backend, r):
+    """[(step index or None, tag, message, step as a single case, its result)] for the steps of a history that violate the property: every
+    step is judged on its own operands, and two steps with the same kind and operands must report the same"""
+    if not r or r[0] != 0 or len(r) != len(c["args"]) + 1:
+        return [(None, "raised", f"the history did not run: {r}", None, None)]
+    out, seen = [], {}
+    for k in range(len(c["args"])):
+        sub, rk = _sub(c, k), r[k + 1]
+        t = _check(sub, backend, rk)
+        if t is None:
+            key_ = json.dumps(c["args"][k])
+            if key_ in seen and r[seen[key_] + 1] != rk:
+                t = ("repeat", f"the same operands reported {r[seen[key_] + 1]} at step {seen[key_]} and {rk} now")
+            seen.setdefault(key_, k)
+        if t is not None:
+            out.append((k, t[0], t[1], sub, rk))
+    return out
+
+
 def oracle(c, backend, r):
+    if c["fn"] == "hist":
+        f = _hist_failures(c, backend, r)
+        if not f:
+            return None
+        k, _tag, msg, sub, _rk = f[0]
+        if k is None:
+            return msg
+        return (f"step {k} of a history of {len(c['args'])} constructions in one process ({sub['fn']}): {msg}"
+                + (f" [{len(f) - 1} more failing step(s)]" if len(f) > 1 else ""))
     t = _check(c, backend, r)
     return None if t is None else t[1]
 
@@ -735,6 +1002,11 @@ def _rs_shift_irregular(c):
 
 
 def known(c, backend, r):
+    if c["fn"] == "hist":
+        # a history is excused only when EVERY failing step, taken as a single case, is the same listed finding
+        f = _hist_failures(c, backend, r)
+        ids = {known(sub, backend, rk) if k is not None and tag != "repeat" else None for k, tag, _m, sub, rk in f}
+        return ids.pop() if len(ids) == 1 else None
     t = _check(c, backend, r)
     if t is None:
         return None
